@@ -143,6 +143,37 @@ def sensitivity(args, scratch):
     return 0 if not missed else 2
 
 
+def benign(args, scratch):
+    """apply all property-preserving refactorings of checks/benign.py to a scratch copy: every check must exit 0 there"""
+    import subprocess
+    from checks.benign import BENIGN
+
+    tree = os.path.join(scratch, "tree-benign")
+    subprocess.run(["rsync", "-a", "--exclude", ".git", "--exclude", "__pycache__", orch.repo_path() + "/", tree + "/"], check=True)
+    for rel, old, new in BENIGN:
+        path = os.path.join(tree, rel)
+        with open(path) as f:
+            src = f.read()
+        if old not in src:
+            print(f"benign: anchor not found in {rel} -- skipped")
+            continue
+        with open(path, "w") as f:
+            f.write(src.replace(old, new, 1))
+    bad = []
+    for check in ([args.check_id] if args.check_id else CHECKS):
+        env = dict(os.environ, POLAR_REPO=tree, VERIF_REPLAY_DIR=os.path.join(scratch, "replays-benign"))
+        t = time.time()
+        p = subprocess.run([sys.executable, os.path.abspath(__file__), check, "--tier", "quick", "--no-evidence"] +
+                           (["--runs", str(args.runs)] if args.runs else []),
+                           env=env, stdout=subprocess.PIPE, stderr=subprocess.STDOUT, text=True)
+        print(f"benign {check}: exit={p.returncode} in {time.time() - t:.0f}s")
+        if p.returncode != 0:
+            bad.append(check)
+            print("\n".join(l for l in p.stdout.splitlines() if not l.startswith("KNOWN"))[-2500:])
+    print(f"benign: alarms raised by {bad}" if bad else "benign: all checks silent")
+    return 0 if not bad else 2
+
+
 def main():
     ap = argparse.ArgumentParser()
     ap.add_argument("check")
@@ -187,6 +218,8 @@ def main():
 
         if args.check == "selftest-sensitivity":
             return sensitivity(args, scratch)
+        if args.check == "selftest-benign":
+            return benign(args, scratch)
 
         check = args.check.upper()
         if check not in CHECKS:
